@@ -42,6 +42,7 @@ func C05(r *core.Run) {
 	elementKinds(r)
 	labelIndependence(r)
 	refNameKeepsLast(r)
+	presentNeverSkipped(r, printRel+"/optionreflect", "walkOptionMessage", "every populated option field is printed")
 	nestedSkipsMapEntries(r, printRel) // a map entry printed as a nested message duplicates the map field
 	// option string values are rendered by an adaptation of prototext's escaper, which the .proto parser reads back
 	rules.VerbatimLoop(r, printRel+"/optionreflect", "prototextString", "google.golang.org/protobuf/internal/encoding/text", "appendString")
